@@ -78,7 +78,7 @@ func (bs batchsim) Gen(prop, tier string, ts *sim.Tapes) *Case {
 	if ft := ts.Get("fault"); prop != "C03" && ft.Chance(1, 3) {
 		nf := 1 + ft.Intn(2)
 		for i := 0; i < nf; i++ {
-			ex.Faults = append(ex.Faults, sim.FaultPlan{K: ft.Intn(10 * n), Kind: []string{"eio", "short", "enospc"}[ft.Intn(3)]})
+			ex.Faults = append(ex.Faults, sim.FaultPlan{K: ft.Intn(10 * n), Kind: []string{"eio", "short", "enospc", "short72"}[ft.Intn(4)]})
 		}
 	}
 	c := &Case{Prop: prop, Engine: bs.Name(), Tier: tier, Seed: ts.Seed, Run: ts.Run, Prog: &work.Program{Cfg: cfg}, Tapes: map[string][]uint64{},
